@@ -268,7 +268,7 @@ var baseEnv = initBaseEnv(map[string]Extension{
 
 	"distinct": {
 		Func:               jlib.Distinct,
-		UndefinedHandler:   nil,
+		UndefinedHandler:   defaultUndefinedHandler,
 		EvalContextHandler: nil,
 	},
 	"count": {
